@@ -715,7 +715,8 @@ def r9_update(facts, rep):
         if r["kind"] == "ret" and isinstance(v, _A) and v.path == "std::result::Result" and v.vi == 0 and not any(
                 isinstance(p_, _T) and p_.op == "contains" and b_ is True for p_, b_ in r["pc"]):
             ins = [e for e in r["log"] if e[0] == "insert"]
-            if len(ins) != 1 or repr(ins[0][-1]) != "compound::State{power, prefix}":
+            st_ = ins[0][-1] if len(ins) == 1 else None
+            if not (isinstance(st_, _A) and st_.path == "compound::State" and tuple(st_.fields) == (_S("power"), _S("prefix"))):
                 bad.append("a new unit is stored as %s; specified State{power, prefix}" % ([repr(e[-1]) for e in ins],))
     rep.ob("C05-R9", "update", not bad and n_occ_ok >= 2 and n_err >= 1, "; ".join(sorted(set(bad))[:3]) if bad else
            "%d Ok path(s) on an existing entry, all behind the prefix comparison; %d Err path(s), none after a change" % (n_occ_ok, n_err), body.site())
